@@ -377,5 +377,38 @@ fn main() {
         }
         run.merge(t);
     }
+    // typed-looking values and multi-byte straddles: every variable x every value another parser
+    // of the library would canonicalise; over-long lines (good and malformed) whose every byte
+    // offset falls inside a multi-byte character for some member
+    {
+        let mut t = Tally::new();
+        let vals = mc_core::chars::TYPED_VALUES;
+        let straddles = mc_core::chars::straddles(run.pick(1500, 70_000));
+        run.bound(format!("typed-looking values: {} values x {} variables (line appended to the complete entry, and replacing the variable's own line); {} straddle strings as value, as name, as whole line", vals.len(), ms::VARS.len(), straddles.len()));
+        let req = required_entry(None);
+        for (name, _, _) in ms::VARS.iter() {
+            for v in vals.iter() {
+                let line = format!("{}={}", name, v);
+                let mut l: Vec<&str> = req.iter().map(|x| x.as_str()).collect();
+                l.push(&line);
+                t.states += 1;
+                check_text(&mut t, &join(&l));
+                let l2: Vec<&str> = req.iter().map(|x| if x.starts_with(&format!("{}=", name)) { line.as_str() } else { x.as_str() }).collect();
+                t.states += 1;
+                check_text(&mut t, &join(&l2));
+            }
+        }
+        for sv in &straddles {
+            for line in [format!("COMMENT={}", sv), format!("{}=x", sv), sv.clone(), format!("{}COMMENT=x", sv), format!("DESCRIPTION={}", sv), format!("FILE_SIZE={}", sv), format!("=={}", sv)] {
+                for at in [0usize, 5, req.len()] {
+                    let mut l: Vec<&str> = req.iter().map(|x| x.as_str()).collect();
+                    l.insert(at, &line);
+                    t.states += 1;
+                    check_text(&mut t, &join(&l));
+                }
+            }
+        }
+        run.merge(t);
+    }
     run.finish();
 }
